@@ -653,19 +653,12 @@ impl<K: Kmer, D: Debug> DebruijnGraph<K, D> {
         writeln!(writer, "],").unwrap();
 
         writeln!(writer, "\"links\": [").unwrap();
+        let mut wrote_link = false;
         for i in 0..self.len() {
             let node = self.get_node(i);
-            match node.edges_to_json(writer) {
-                true => {
-                    if i == self.len() - 1 {
-                        writeln!(writer).unwrap();
-                    } else {
-                        writeln!(writer, ",").unwrap();
-                    }
-                }
-                _ => continue,
-            }
+            wrote_link = node.edges_to_json(writer, wrote_link);
         }
+        writeln!(writer).unwrap();
         writeln!(writer, "]").unwrap();
 
         match rest {
@@ -1071,10 +1064,14 @@ impl<'a, K: Kmer, D: Debug> Node<'a, K, D> {
         .unwrap();
     }
 
-    fn edges_to_json(&self, f: &mut dyn Write) -> bool {
-        let mut wrote = false;
+    /// Write the right-going links of this node, each preceded by a separator if
+    /// `wrote` says a link was already written. Returns true if any link has been written so far.
+    fn edges_to_json(&self, f: &mut dyn Write, mut wrote: bool) -> bool {
         let edges = self.r_edges();
-        for (idx, &(id, incoming_dir, _)) in edges.iter().enumerate() {
+        for &(id, incoming_dir, _) in edges.iter() {
+            if wrote {
+                writeln!(f, ",").unwrap();
+            }
             write!(
                 f,
                 "{{\"source\":\"{}\",\"target\":\"{}\",\"D\":\"{}\"}}",
@@ -1086,10 +1083,6 @@ impl<'a, K: Kmer, D: Debug> Node<'a, K, D> {
                 }
             )
             .unwrap();
-
-            if idx < edges.len() - 1 {
-                write!(f, ",").unwrap();
-            }
 
             wrote = true;
         }
